@@ -156,9 +156,12 @@ MODELS = [
 
 
 def run(rep, tier):
-    run_status(rep)
-    run_partition(rep, tier)
-    run_encode(rep)
+    with rep.part('status codes'):
+        run_status(rep)
+    with rep.part('parameter partition'):
+        run_partition(rep, tier)
+    with rep.part('encode'):
+        run_encode(rep)
     ops = [{'op': 'error_encode'}, {'op': 'error_encode_kinds'}]
     for o, r in zip(ops, replay(ops)):
         rep.replayed += 1
